@@ -205,6 +205,7 @@ def run_copy_covers(ctx: Ctx) -> RuleResult:
     repo = ctx.repo
     res = RuleResult('R-COPY-COVERS', 'hand-written copies cover every field; deep copies are unconditional; the state copy keeps its lexer '
                                      'recognisable')
+    res.default_props = ['C13']
     scope = ('lark.lexer', 'lark.tree', 'lark.utils', 'lark.parsers.lalr_parser_state', 'lark.parsers.lalr_interactive_parser',
              'lark.parsers.lalr_parser')
     n = 0
@@ -277,6 +278,51 @@ def run_copy_covers(ctx: Ctx) -> RuleResult:
                             res.finding(m, shallow[0], '%s.__deepcopy__ passes %s, which on some path is the original\'s own %s (not a copy): the copy '
                                         'and the original share it, and in-place updates of one show in the other' % (k.name, a.id, norm(shallow[0].value)),
                                         construct='deepcopy-conditional:%s' % a.id)
+    # a copy built by calling the class's own constructor hands each parameter the field of the same name (Token(self.type, self.value, ...))
+    for k in repo.classes.values():
+        if not k.module.name.startswith('lark') or k.module.name.startswith('lark.tools'):
+            continue
+        ctor = k.methods.get('__new__') or k.methods.get('__init__')
+        if ctor is None:
+            continue
+        cnames = ctor.positional_names()
+        if k.methods.get('__new__') is ctor and cnames and cnames[0] == 'cls':
+            cnames = cnames[1:]
+        if not cnames:
+            # __new__(cls, *args, **kwargs) that hands over to a constructor helper: the helper whose parameters become fields of the same name
+            for h_ in k.methods.values():
+                hp = h_.positional_names()
+                stored = {t.attr for a in h_.body_nodes() if isinstance(a, ast.Assign) for t in a.targets if isinstance(t, ast.Attribute) and norm(a.value) == t.attr}
+                if len(hp) >= 2 and len(stored) >= 2 and stored <= set(hp):
+                    ctor, cnames = h_, hp
+                    break
+        if not cnames:
+            continue
+        fields_k = {t.attr for a in ctor.body_nodes() if isinstance(a, ast.Assign) for t in a.targets if isinstance(t, ast.Attribute)} | set(k.literal_attr('__slots__') or [])
+        for mname in COPY_METHODS:
+            m = k.methods.get(mname)
+            if m is None:
+                continue
+            sn = m.self_name() or 'self'
+            for c in m.body_nodes():
+                if not (isinstance(c, ast.Call) and (norm(c.func) == k.name or norm(c.func) in ('type(%s)' % sn, '%s.__class__' % sn)) and c.args):
+                    continue
+                bound, _ex = bind_call(c, cnames)
+                bad = []
+                for p_, a_ in bound.items():
+                    roots = [x for x in ast.walk(a_) if isinstance(x, ast.Name) and x.id == sn]
+                    if not roots:
+                        continue
+                    attrs_ = {x.attr for x in ast.walk(a_) if isinstance(x, ast.Attribute) and isinstance(x.value, ast.Name) and x.value.id == sn}
+                    bare = any(not isinstance(parent(x), ast.Attribute) for x in roots)
+                    if bare or (attrs_ and not (attrs_ & {p_, '_' + p_}) and (p_ in fields_k or '_' + p_ in fields_k)):
+                        bad.append((p_, norm(a_)))
+                ok = not bad
+                res.ob('%s %s' % (m.loc(c), m.qual), 'the copy hands every constructor parameter the field of its name', ok)
+                if not ok:
+                    res.finding(m, c, 'the copy passes %s for parameter `%s` of %s: the copied object carries the wrong value in that field (a token whose value is '
+                                'the token itself, printed as its repr)' % (bad[0][1], bad[0][0], k.name), construct='copy-arg:%s.%s' % (k.name, bad[0][0]),
+                                props=['C13', 'C15'])
     res.require_instances(n, 3, 'hand-written copy methods')
     # ParserState.copy hands the lexer through: InteractiveParser.copy replaces the copied state's lexer only when it *is* the
     # interactive parser's thread, so a state copy that copies the lexer itself leaves the fork with two threads
@@ -392,7 +438,7 @@ _FORWARD_PROPS = [
     ('lark.lark', ['C13', 'C08', 'C10']), ('lark.parser_frontends', ['C13', 'C08', 'C10']), ('lark.parsers.lalr', ['C13', 'C08']),
     ('lark.lexer', ['C07', 'C14']), ('lark.load_grammar', ['C17', 'C03']), ('lark.parsers.earley', ['C04', 'C05']),
     ('lark.parsers.xearley', ['C04', 'C05']), ('lark.parse_tree_builder', ['C03', 'C06']), ('lark.visitors', ['C16']),
-    ('lark.indenter', ['C18']), ('lark.tools', ['C11']), ('lark.utils', ['C10']), ('lark.common', ['C10']), ('lark.tree', ['C16']),
+    ('lark.indenter', ['C18', 'C08']), ('lark.exceptions', ['C08']), ('lark.tools', ['C11']), ('lark.utils', ['C10']), ('lark.common', ['C10']), ('lark.tree', ['C16']),
 ]
 
 
@@ -617,4 +663,77 @@ def run_flag_default(ctx: Ctx) -> RuleResult:
                                     'configurations that do not pass it now behave like the one that does' % (key, g.qual, val, f.qual, norm(st)),
                                     construct='flag-default:%s' % key)
     res.require_instances(n, 1, 'conditionally passed keywords')
+    return res
+
+
+# ------------------------------------------------------------------------------------------------
+# R-FORMAT-ARITY: a '%'-format with a literal template gets as many values as it has holes (else the raise / log site itself fails
+# with TypeError, which is not the exception the caller was promised).
+_SPEC = __import__('re').compile(r'%(?:\(([^)]*)\))?[#0\- +]*(\*|\d+)?(?:\.(\*|\d+))?[hlL]?([diouxXeEfFgGcrsa%])')
+
+
+def run_format_arity(ctx: Ctx) -> RuleResult:
+    repo = ctx.repo
+    res = RuleResult('R-FORMAT-ARITY', 'a %-format with a literal template receives as many values as it has holes')
+    n = 0
+    for f in repo.functions.values():
+        if not f.module.name.startswith('lark') or isinstance(f.node, ast.Lambda):
+            continue
+        defs: Dict[str, List[ast.AST]] = {}
+        for a in f.body_nodes():
+            if isinstance(a, ast.Assign) and len(a.targets) == 1 and isinstance(a.targets[0], ast.Name):
+                defs.setdefault(a.targets[0].id, []).append(a.value)
+            elif isinstance(a, (ast.For, ast.comprehension, ast.AugAssign)):
+                for x in ast.walk(a.target):
+                    if isinstance(x, ast.Name):
+                        defs.setdefault(x.id, []).append(None)
+
+        def scalar(e: ast.AST) -> bool:
+            """certainly not a tuple"""
+            if isinstance(e, ast.Constant):
+                return not isinstance(e.value, tuple)
+            if isinstance(e, ast.BinOp) and isinstance(e.op, (ast.Add, ast.Sub, ast.Mult, ast.FloorDiv, ast.Mod)) and not isinstance(e.op, ast.Mod):
+                return scalar(e.left) or scalar(e.right) or (isinstance(e.left, ast.Call) and isinstance(e.right, ast.BinOp))
+            if isinstance(e, ast.Call) and norm(e.func) in ('len', 'int', 'str', 'repr', 'float', 'bool', 'ord', 'chr') or \
+                    (isinstance(e, ast.Call) and isinstance(e.func, ast.Attribute) and e.func.attr in ('count', 'index', 'find', 'rfind', 'join', 'format', 'upper', 'lower', 'strip')):
+                return True
+            if isinstance(e, ast.BinOp) and isinstance(e.op, (ast.Add, ast.Sub, ast.Mult)):
+                return any(isinstance(x, ast.Call) and isinstance(x.func, ast.Attribute) and x.func.attr in ('count', 'index', 'find') or
+                           (isinstance(x, ast.Call) and norm(x.func) == 'len') for x in ast.walk(e))
+            if isinstance(e, (ast.JoinedStr, ast.Compare, ast.BoolOp)) and not isinstance(e, ast.BoolOp):
+                return True
+            if isinstance(e, ast.Name) and e.id in defs and len(defs[e.id]) >= 1 and all(d is not None and scalar(d) for d in defs[e.id]):
+                return True
+            return False
+        for b in f.body_nodes():
+            if not (isinstance(b, ast.BinOp) and isinstance(b.op, ast.Mod) and isinstance(b.left, ast.Constant) and isinstance(b.left.value, str)):
+                continue
+            specs = _SPEC.findall(b.left.value)
+            if any(s_[0] for s_ in specs) or any(s_[1] == '*' or s_[2] == '*' for s_ in specs):
+                continue
+            holes = sum(1 for s_ in specs if s_[3] != '%')
+            r = b.right
+            if isinstance(r, ast.Tuple):
+                if any(isinstance(e, ast.Starred) for e in r.elts):
+                    continue
+                k = len(r.elts)
+            elif holes >= 2 and scalar(r):
+                k = 1
+            elif holes == 0 and not isinstance(r, (ast.Dict,)):
+                k = 1 if scalar(r) else None
+                if k is None:
+                    continue
+            else:
+                continue
+            n += 1
+            ok = k == holes
+            if not ok:
+                props = next((pr for pre, pr in _FORWARD_PROPS if f.module.name.startswith(pre)), None)
+                if any(isinstance(a_, ast.Raise) for a_ in ancestors(b)) or True:
+                    res.ob('%s %s' % (f.module.loc(b), f.qual), 'format %r gets %d value(s) for %d hole(s)' % (b.left.value[:40], k, holes), False)
+                    res.finding(f, b, 'the template %r has %d hole(s) but is given %d value(s): evaluating it raises TypeError -- where it builds the message '
+                                'of an exception, the caller gets TypeError instead of the promised exception' % (b.left.value[:60], holes, k),
+                                construct='format-arity:%s' % b.left.value[:30], props=props)
+    res.notes.append('%d literal %%-formats with a countable right-hand side examined' % n)
+    res.require_instances(n, 25, 'literal %-formats')
     return res
